@@ -20,14 +20,15 @@ fn main() {
         }
         return;
     }
-    if args.len() != 3 {
-        eprintln!("usage: replay <harness> <hex-tape> | --list");
+    let lenient = args.len() == 4 && args[3] == "--lenient";
+    if args.len() != 3 && !lenient {
+        eprintln!("usage: replay <harness> <hex-tape> [--lenient] | --list");
         std::process::exit(64);
     }
     let name = args[1].clone();
     let tape = unhex(&args[2]);
     panic::set_hook(Box::new(|_| {}));
-    let r = panic::catch_unwind(|| foca::verif_kani::run(&name, &tape));
+    let r = panic::catch_unwind(|| foca::verif_kani::run_opts(&name, &tape, lenient));
     let profile = if cfg!(debug_assertions) { "dev" } else { "release" };
     match r {
         Ok(None) => {
